@@ -25,6 +25,10 @@ CHECKS = {
    technique="deterministic simulation: seeded search over scripted peer behaviours on unidirectional streams (stream types, control frame sequences, FIN/RESET positions), arrival orders, chunkings and stream-credit/back-pressure faults on the endpoint's own outgoing streams; admissible-set reference model plus effect checks (applied SETTINGS, GOAWAY taking effect) and a two-chunking metamorphic comparison",
    text="Real h3 server and client drivers over SimQuic face a scripted peer that opens 1-5 unidirectional streams of every kind (type varints in all forms, closed/reset before the type completes) and sends a control frame sequence with at most one deviation, ended by FIN/RESET at a drawn position, while the simulator withholds or delays the endpoint's own stream credit (so that the optional 4th stream pends for ever or for a while) and pends/partially accepts its writes. Oracle: the connection outcome (driver result and effective close code at exact quiescence) is in the admissible set computed by a reference model of RFC 9114 §6.2/§7.2.4/§5.2 (none if the peer did nothing wrong; a driver that only notices when polled again later counts as parked), applied SETTINGS are visible, a valid GOAWAY takes effect (accept() ends / new requests refused), and the outcome does not depend on chunking. Sampling, not proof.",
    note="Trusted: reference model in checks/c04.rs, refs codecs, SimQuic, simexec. Unconstrained by scoping: unknown frame before SETTINGS, CANCEL_PUSH to a client, push streams, a RESET control stream; optional codes where a RESET may overtake a stream type or two RFC rules apply to one frame; server accept() may end after a valid GOAWAY before later frames are read."),
+ "C06": dict(level="fault_enumeration", engine="E1", design_ref="DESIGN.md §5 C06",
+   technique="deterministic simulation with fault injection: adversarial grammar- and byte-mutated peer scripts, one injected fault per run whose kind and script step index are enumerated systematically over the run index, seeded chunkings/interleavings; oracles: caught panics (overflow checks on) and two-stage bounded liveness at exact executor quiescence",
+   text="Real h3 servers and clients (documented call patterns, whole and split streams, drawn behaviour after an error) face a scripted adversary: valid traffic mutated at the frame, varint, QPACK-representation and byte level on request, control, QPACK, push, WebTransport and unknown streams, with FIN, RESET, STOP_SENDING, application close (NO_ERROR / error codes), idle timeout, transport internal/undefined errors and stream-level read/write errors injected at every step index 0..23 in systematic order. No h3 call may panic or overflow (release build with overflow checks and debug assertions); after the peer has ended or aborted every stream and granted all credit, every call that waits on a stream must have completed at exact quiescence (a diagnostic re-poll sweep tells a lost wake-up from a missing completion rule); after the connection is closed every h3 future must have completed. Sampling of scripts and schedules; fault kind x step index enumerated.",
+   note="Trusted: SimQuic (non-empty chunks, valid ids), simexec's quiescence detection, the application models. Which error is returned is not judged here."),
  "C14": dict(level="exploration", engine="E1", design_ref="DESIGN.md §5 C14",
    technique="deterministic simulation: seeded search over generated API-call programs, builder configurations and per-call write-acceptance/pend patterns of the transport; history check of the complete per-stream byte logs by a reference RFC 9114 parser",
    text="Generated programs (1-4 exchanges in both roles, empty and multi-chunk buffers, trailers, streams abandoned mid-body, split halves, server shutdown(n) and client shutdown at drawn moments, drawn builder options) run on real h3 endpoints over SimQuic, which accepts writes down to one byte at a time, splits frame headers, pends and withholds stream credit. Afterwards every byte either endpoint wrote on every stream is parsed with the reference codecs: legal uni stream types, SETTINGS first and only allowed frames on the control stream (never finished/reset), only complete HEADERS/DATA/reserved frames in legal order on request streams, length fields consistent, reserved identifiers of the 0x1f*N+0x21 form, no HTTP/2 types or settings, GOAWAY ids non-increasing, DATA payloads concatenating to exactly what send_data was given, HEADERS decoding to what was submitted, and no misuse of the transport traits (overlapping send_data). Sampling, not proof.",
